@@ -14,7 +14,7 @@
    variable reference, a function reference or a term attribute; the value of every NAMED ARGUMENT is a string
    literal or a number literal (shape_named; what the grammar asks, and what get_inline_expression with
    only_literal = true returns since the repair of finding D32), and the NAMES of the named arguments of a call are
-   pairwise distinct (Render.no_dup_names).
+   pairwise distinct (Render.no_dup_names).  A message without a value has at least one attribute.
    (Not covered here: lexical validity of identifiers / numbers / string literals, the position-dependent facts
    about leading '.', '[', '*' and indentation, comments, Junk — for Junk see ParserAccounting.v.)          *)
 From FluentV Require Import Base.Bytes Base.BytesFacts Base.Outcome Base.Utf8 Syntax.Ast Syntax.ParserModel Syntax.ParserAccounting.
@@ -51,7 +51,7 @@ Fixpoint shape_inline (i : inline) : Prop :=
   match i with
   | FunctionReference _ ca => shape_args ca
   | TermReference _ _ (Some ca) => shape_args ca
-  | Placeable e => shape_expr e
+  | Placeable e => shape_expr e /\ not_term_attr e
   | _ => True
   end
 with shape_expr (e : expression) : Prop :=
@@ -128,7 +128,9 @@ Definition shape_opt_pattern (o : option pattern) : Prop := match o with Some p 
 Definition shape_attribute (a : attribute) : Prop := shape_pattern (attr_value a).
 Definition shape_entry (e : entry) : Prop :=
   match e with
-  | Message _ v attrs _ => shape_opt_pattern v /\ Forall shape_attribute attrs
+  | Message _ v attrs _ =>
+      (* a message without a value has attributes *)
+      match v with Some p => shape_pattern p | None => attrs <> [] end /\ Forall shape_attribute attrs
   | Term _ v attrs _ => shape_pattern v /\ Forall shape_attribute attrs
   | _ => True
   end.
@@ -412,7 +414,9 @@ Definition text_step (st : pstate) (slice_start indent : nat) (ts : nat * nat * 
                      end
                 else common_indent st in
       if negb ls || nonblank || (match term with TLineFeed => true | _ => false end) then
-        PState (PHText slice_start end_ indent (role st) :: elements st) (S (n_elements st))
+        let blank_line := ls && negb nonblank in
+        PState (PHText (if blank_line then start else slice_start) end_ (if blank_line then 0 else indent) (role st)
+                  :: elements st) (S (n_elements st))
                (if nonblank then Some (n_elements st) else last_non_blank st) ci (role st)
       else PState (elements st) (n_elements st) (last_non_blank st) ci (role st)
     else if ls && (match term with TPlaceableStart => true | _ => false end) then
@@ -470,12 +474,16 @@ Proof.
 Qed.
 
 Lemma text_step_ok st slice_start indent ts :
-  st_ok st -> range_ok slice_start (snd (fst (fst ts))) -> st_ok (text_step st slice_start indent ts).
+  st_ok st -> range_ok slice_start (snd (fst (fst ts))) -> slice_start <= fst (fst (fst ts)) ->
+  st_ok (text_step st slice_start indent ts).
 Proof.
-  intros Hst Hr. destruct ts as [[[start end_] nonblank] term]. cbn [fst snd] in Hr. unfold text_step, st_ok in *.
+  intros Hst Hr Hle. destruct ts as [[[start end_] nonblank] term]. cbn [fst snd] in Hr, Hle. unfold text_step, st_ok in *.
   assert (Hnew : Forall ph_ok (PHText slice_start end_ indent (role st) :: elements st)) by (constructor; [constructor; exact Hr | exact Hst]).
+  assert (Hnew0 : Forall ph_ok (PHText start end_ 0 (role st) :: elements st))
+    by (constructor; [constructor; apply (range_ok_sub slice_start end_ start Hr Hle) | exact Hst]).
   destruct (negb (Nat.eqb start end_)).
-  - destruct (negb (is_line_start (role st)) || nonblank || match term with TLineFeed => true | _ => false end); cbn [elements]; assumption.
+  - destruct (negb (is_line_start (role st)) || nonblank || match term with TLineFeed => true | _ => false end); cbn [elements]; [|assumption].
+    destruct (is_line_start (role st) && negb nonblank); assumption.
   - destruct (is_line_start (role st) && match term with TPlaceableStart => true | _ => false end); cbn [elements]; assumption.
 Qed.
 
@@ -531,7 +539,7 @@ Proof.
         useb (sp_prologue (role st) p). intros pro q Hpro.
         destruct pro as [indent|]; [|apply spec_ret; exact Hst]. destruct Hpro as [-> Hsp].
         useb (sp_text_slice (indent + p)). intros [[[start end_] nb] term] q (Hs & Hle & Hr). cbn [fst snd] in Hs, Hle, Hr.
-        apply IH2. apply (text_step_ok st p indent (start, end_, nb, term) Hst). cbn [fst snd].
+        apply IH2. apply (text_step_ok st p indent (start, end_, nb, term) Hst); [|cbn [fst]; lia]. cbn [fst snd].
         apply (range_ok_join p (indent + p) end_); [|exact Hr|].
         -- intros i c Hi Hc. rewrite (Hsp i c Hi Hc). split; [split; discriminate | intros _; discriminate].
         -- intros i c Hi Hc. rewrite (Hsp i c Hi Hc). discriminate.
@@ -586,7 +594,7 @@ Proof.
         - skipb. apply spec_ret. apply Hnl; [exact Logic.I | exact Eol]. }
       destruct (N.eqb b 123 && negb ol) eqn:Ebr.
       { assert (Eol : ol = false) by (destruct ol; [rewrite andb_false_r in Ebr; discriminate Ebr | reflexivity]).
-        skipn u1 q1. useb (IH3 q1). intros e q2 [He _]. apply spec_ret. apply Hnl; [exact He | exact Eol]. }
+        skipn u1 q1. useb (IH3 q1). intros e q2 He. apply spec_ret. apply Hnl; [exact He | exact Eol]. }
       destruct ol; exact Logic.I.
     + (* get_call_arguments *)
       intros p. cbn [get_call_arguments]. fold_knot bs.
@@ -642,7 +650,7 @@ Proof.
   unfold get_message. skipn id q1. skipn u2 q2. skipn u3 q3. useb (sp_get_pattern_shape n q3). intros pat q4 Hp.
   skipn u5 q5. useb (sp_get_attributes_shape n [] q5 ltac:(constructor)). intros attrs q6 Ha.
   destruct pat as [pat|]; [apply spec_ret; split; assumption|].
-  destruct attrs as [|a r]; [skipb; exact Logic.I | apply spec_ret; split; [exact Logic.I | exact Ha]].
+  destruct attrs as [|a r]; [skipb; exact Logic.I | apply spec_ret; split; [discriminate | exact Ha]].
 Qed.
 
 Lemma sp_get_term_shape n es p : spec (get_term bs n es) p (fun e _ => shape_entry e) ET.
